@@ -12,13 +12,15 @@ def main():
         print("CONTRACT ERROR", e)
     pat = sys.argv[2] if len(sys.argv) > 2 else ""
     for d in eng.decls:
-        if d.kind not in ("func", "lemma") or pat not in d.name:
+        if d.kind not in ("func", "lemma", "coverage") or pat not in d.name:
             continue
         if d.kind == "func" and ("effectfree" in d.flags or "assumed" in d.flags or "opaque" in d.flags):
             continue
         t0 = time.time()
         try:
-            if d.kind == "lemma":
+            if d.kind == "coverage":
+                eng.verify_coverage(d); info = "coverage"
+            elif d.kind == "lemma":
                 eng.verify_lemma(d); info = "lemma"
             else:
                 info = eng.verify_function(d)
